@@ -540,6 +540,7 @@ func runE2E(c e2eCase) string {
 		for _, v := range c.Vulns {
 			o := v.OSV(eco, c.Table)
 			o.Aliases = []string{"ALIAS-" + strings.TrimPrefix(v.ID, "V-")} // ignore lists may name a vulnerability by alias
+			o.Aliases = append(o.Aliases, v.AliasOf...)
 			osvs = append(osvs, o)
 		}
 		dir, err := os.MkdirTemp(scratch, "e")
@@ -992,6 +993,67 @@ func genE2EFilterExposed(r *rand.Rand) e2eCase {
 	return c
 }
 
+// genE2EAliasLinked: records that name each other as aliases but affect DIFFERENT version ranges (the same flaw published under two
+// ids with different ranges, or a regression filed as an alias of the old advisory): record A affects lib below some version, record
+// B — aliases [A] — affects lib from there on.  The patch that fixes A brings in B: A is fixed, B is introduced; an alias is a name
+// for the ignore list, not an identity between findings.  Variants: the alias on A instead of B, on both, a chain A <- B <- C,
+// an alias nothing has, the library direct or one edge down, a third record that really stays.
+func genE2EAliasLinked(r *rand.Rand) e2eCase {
+	c := e2eCase{Eco: "n", Table: e2eNpmVers, MaxUpgrades: []int{1, 0, 2}[r.Intn(3)], NoIntroduce: false, DevDeps: true, MaxDepth: -1, Levels: map[string]int{}}
+	lib, top := "lib", "top"
+	if r.Intn(2) == 0 {
+		c.Eco, c.Table = "m", e2eMvnVers
+		lib, top = "g:lib", "g:top"
+	}
+	req := func(v string) string {
+		if c.Eco == "m" {
+			return v
+		}
+		return "^" + v
+	}
+	n := len(c.Table)
+	cut := 2 + r.Intn(2) // A: lib below Table[cut]; B: from Table[cut] on
+	c.Pkgs = []remx.Pkg{{Name: lib, Versions: c.Table}}
+	if r.Intn(2) == 0 {
+		c.Root = []rootDep{{Name: lib, Req: req(c.Table[0])}}
+	} else { // one edge down: every top version requires lib at its own version
+		p := remx.Pkg{Name: top, Versions: c.Table, Deps: map[string][]string{}}
+		for _, v := range c.Table {
+			p.Deps[v] = []string{lib + "@" + req(v)}
+		}
+		c.Pkgs = append(c.Pkgs, p)
+		c.Root = []rootDep{{Name: top, Req: req(c.Table[0])}}
+		if c.Eco == "m" && r.Intn(2) == 0 {
+			c.Root = append(c.Root, rootDep{Name: lib, Req: c.Table[0]})
+		}
+	}
+	a := remx.VulnSpec{ID: vid(1), Pkg: lib, Introduced: -1, Fixed: cut, Last: -1}
+	b := remx.VulnSpec{ID: vid(2), Pkg: lib, Introduced: cut, Fixed: -1, Last: -1}
+	if cut+1 < n && r.Intn(2) == 0 {
+		b.Fixed = cut + 1 + r.Intn(n-cut-1)
+	}
+	switch r.Intn(4) {
+	case 0:
+		b.AliasOf = []string{a.ID}
+	case 1:
+		a.AliasOf = []string{b.ID}
+	case 2:
+		a.AliasOf, b.AliasOf = []string{b.ID}, []string{a.ID}
+	default:
+		b.AliasOf = []string{a.ID, "CVE-0000-0000"} // and one nothing has
+	}
+	c.Vulns = []remx.VulnSpec{a, b}
+	if b.Fixed > 0 && b.Fixed < n && r.Intn(2) == 0 { // a chain: C (aliases [B]) from where B ends
+		c.Vulns = append(c.Vulns, remx.VulnSpec{ID: vid(3), Pkg: lib, Introduced: b.Fixed, Fixed: -1, Last: -1, AliasOf: []string{b.ID}})
+	} else if r.Intn(3) == 0 { // a record of its own that affects every version: stays
+		c.Vulns = append(c.Vulns, remx.VulnSpec{ID: vid(3), Pkg: lib, Introduced: -1, Fixed: -1, Last: -1, AliasOf: []string{"GHSA-none"}})
+	}
+	if r.Intn(5) == 0 { // ignore lists name aliases too: ignoring A's id also ignores the records that call themselves A
+		c.Ignore = []string{[]string{a.ID, b.ID}[r.Intn(2)]}
+	}
+	return c
+}
+
 func genE2E(r *rand.Rand) e2eCase {
 	switch r.Intn(8) {
 	case 0, 1:
@@ -1003,8 +1065,11 @@ func genE2E(r *rand.Rand) e2eCase {
 	case 4:
 		return genE2EParentChain(r)
 	case 5:
-		if r.Intn(3) == 0 {
+		switch r.Intn(3) {
+		case 0:
 			return genE2EFilterExposed(r)
+		case 1:
+			return genE2EAliasLinked(r)
 		}
 	}
 	c := e2eCase{Eco: "n", Table: e2eNpmVers, MaxUpgrades: []int{1, 1, 1, 0, 2}[r.Intn(5)], NoIntroduce: r.Intn(4) == 0, DevDeps: r.Intn(4) != 0, MaxDepth: []int{-1, -1, 1, 2}[r.Intn(4)], Levels: map[string]int{}}
